@@ -274,7 +274,18 @@ def r_operator_inventory(c):
     in_table = {id(v) for v in tbl.values}
     n = 0
     for mi, fd in m.all_functions(modules=[NL]):
+        # the one admitted use outside the table: an explicit minus in front of a
+        # scalar CONSTANT (`ast.UnaryOp(ast.USub(), <constant>)`): no array is involved
+        neg_const = set()
+        for u in ast.walk(fd):
+            if isinstance(u, ast.Call) and ast.unparse(u.func) == "ast.UnaryOp" \
+                    and len(u.args) == 2 and ast.unparse(u.args[0]) == "ast.USub()" \
+                    and isinstance(u.args[1], ast.Call) and ast.unparse(u.args[1].func) in (
+                        "_constant", "ast.Constant"):
+                neg_const |= {id(u.func), id(u.args[0].func)}
         for x in ast.walk(fd):
+            if id(x) in neg_const:
+                continue
             if isinstance(x, ast.Attribute) and isinstance(x.value, ast.Name) \
                     and x.value.id == "ast" and x.attr in PY_OPERATOR_NODES \
                     and id(x) not in in_table:
@@ -600,9 +611,67 @@ def r_creator_dtype(c):
         raise AnalysisError(f"only {n} array-creating emissions found (floor 2)")
 
 
+def r_scalar_constants(c):
+    """a scalar operand reaches the generated source through ast.Constant, i.e. through
+    its repr: that is an expression of the same value only for finite, non-negative
+    numbers (`-2 ** x` is -(2 ** x); the repr of a non-finite numpy scalar names `inf`
+    / `nan`).  The emitter's scalar path therefore (tabulated by case-split
+    evaluation) builds the value from its string form where it is not finite and
+    negates explicitly where it is negative"""
+    m = c.model
+    from pta import symrun
+    fd = m.cls(NPGEN).methods["map_index_lambda"]
+    helper = next((x for x in ast.walk(fd) if isinstance(x, ast.FunctionDef)
+                   and x.name == "_rec_ary_or_constant"), None)
+    if helper is None:
+        cands = [x for x in m.scope(fd) if "_constant(" in ast.unparse(x) and x is not fd]
+        helper = cands[0] if cands else None
+    if helper is None:
+        raise AnalysisError("anchor vanished: scalar/array operand emitter of the Python target")
+    where = m.loc(NL, helper)
+    ep = helper.args.args[-1].arg
+    try:
+        tab = symrun.table(m.normal(helper).body, lambda t: None)
+    except AnalysisError as e:
+        raise AnalysisError(f"scalar emitter: {e}")
+    plain = nonfinite_plain = neg_plain = 0
+    for cs, ev in tab.items():
+        cs = dict(cs)
+        if any(v for k, v in cs.items() if k.startswith("isinstance(") and "Array" in k):
+            continue
+        ret = next((e_[1] for e_ in ev if e_[0] == "exit" and e_[1].startswith("return ")), "")
+        import re
+        flat = re.sub(r"cast\('[^']*',\s*([^()]*)\)", r"\1", ret).replace(" ", "")
+        is_plain = flat in (f"return_constant({ep})", f"returnast.Constant({ep})",
+                            f"return_constant(value={ep})", f"returnast.Constant(value={ep})")
+        finite = [v for k, v in cs.items() if "isfinite" in k]
+        nan = [v for k, v in cs.items() if "isnan" in k or "isinf" in k]
+        negative = [v for k, v in cs.items() if k.replace(" ", "") == f"{ep}<0"]
+        known_finite = (finite and finite[0]) or (len(nan) >= 2 and not any(nan))
+        is_complex = any(v for k, v in cs.items() if k.startswith("isinstance(")
+                         and "complex" in k)
+        known_nonneg = (negative and not negative[0]) or is_complex
+        if is_plain:
+            plain += 1
+            if not known_finite:
+                nonfinite_plain += 1
+            if not known_nonneg:
+                neg_plain += 1
+    c.check(plain >= 1 and nonfinite_plain == 0, "R14-TABLES",
+            "NumpyCodegenMapper._rec_ary_or_constant", "non-finite-scalars-built-from-a-string",
+            where, "a scalar that may be inf/nan is emitted through ast.Constant (its repr): "
+            "`np.float32(inf)` raises NameError when the generated function runs")
+    c.check(plain >= 1 and neg_plain == 0, "R14-TABLES",
+            "NumpyCodegenMapper._rec_ary_or_constant", "negative-scalars-negated-explicitly",
+            where, "a scalar that may be negative is emitted through ast.Constant: "
+            "`-2 ** x` is parsed as -(2 ** x), the generated program computes another value "
+            "than the expression")
+
+
 SPEC = Spec(
     prop="C14",
-    rules=[r_namespace, r_tables, r_consume, r_args, r_unsupported, r_operator_inventory, r_intclass, r_creator_dtype],
+    rules=[r_namespace, r_tables, r_consume, r_args, r_unsupported, r_operator_inventory, r_intclass, r_creator_dtype,
+           r_scalar_constants],
     floors={"R14-NAMESPACE": 31, "R14-TABLES": 48, "R14-CONSUME": 20, "R14-ARGS": 9,
             "R14-UNSUPPORTED": 5},
     explanation=(
